@@ -277,18 +277,24 @@ def branchy(a: FLOAT[...], flip: int = 0):
     else:
         r = -a
     return r
+
+@script(default_opset=op)
+def calls_other(a: FLOAT[...]):
+    u, v = two_out(a)
+    return scale_shift(u, v, alpha=0.5) - a
 '''
 
 
 def _call_worker(payload):
-    fname, kwargs, lits = payload
+    fname, kwargs, lits = payload[:3]
+    lit_arg = len(payload) > 3 and payload[3]   # the function's second tensor argument is a Python literal
     import onnxscript
     from vp.symonnx import equiv as Q
     from vp.symonnx import interp as I
     from vp.symonnx import scripts as S
     from vp.symonnx import wellformed as W
     from vp.symonnx.values import NotEncoded, Malformed, fresh
-    rec = {"call": fname, "kwargs": kwargs, "verdict": None, "detail": "", "problems": []}
+    rec = {"call": fname + (" (literal argument)" if lit_arg else ""), "kwargs": kwargs, "verdict": None, "detail": "", "problems": []}
     stats = Q.Stats()
     try:
         import os
@@ -302,7 +308,7 @@ def _call_worker(payload):
             g.inputs.extend([x, y])
             gb = onnxscript.GraphBuilder(g)
             t = gb.op.Add(x, lits[0])
-            args = [t] if fname != "scale_shift" else [t, y]
+            args = [t] if fname != "scale_shift" else [t, lits[1] if lit_arg else y]
             res = getattr(gb.op, how)(fn, *args, **kwargs)
             res = list(res) if isinstance(res, (tuple, list)) else [res]
             out = gb.op.Mul(res[0], lits[1])
@@ -480,10 +486,12 @@ def main(tier: str, only=None) -> int:
         traces = list(ex.map(_trace_worker, [(common.seed(), i) for i in range(n)], chunksize=4))
         calls = []
         for fname, kws in (("scale_shift", [{}, {"alpha": 0.5}, {"k": -3}, {"alpha": -1.0, "k": 2}, {"alpha": 0.0}, {"k": 0}, {"alpha": 0.0, "k": 0}]),
-                            ("two_out", [{}]), ("branchy", [{}, {"flip": 1}, {"flip": 0}])):
+                            ("two_out", [{}]), ("branchy", [{}, {"flip": 1}, {"flip": 0}]), ("calls_other", [{}])):
             for kw in kws:
                 for lits in ((1.0, 2.0), (0, 0.5), (-0.0, 1)):
                     calls.append((fname, kw, lits))
+                    if fname == "scale_shift" and kw in ({}, {"alpha": 0.5}):
+                        calls.append((fname, kw, lits, True))
         call_res = list(ex.map(_call_worker, calls, chunksize=2))
     counts = {}
     solver = {"unsat": 0, "sat": 0, "unknown": 0, "queries": 0, "solver_s": 0.0}
